@@ -23,7 +23,7 @@ META = {
     'quotas': {
         'quick': {'traversable-answers': 50000, 'answer:or:True': 1000, 'answer:or:False': 1000, 'answer:and:True': 1000,
                   'answer:and:False': 1000, 'answer:defense:False': 500, 'surfaces-compared': 5000, 'incremental-steps-compared': 2000,
-                  'class:and-mixed-necessary-parents': 500, 'class:batch-shares-child': 100, 'defense-surfaces-compared': 5000,
+                  'class:and-mixed-necessary-parents': 500, 'class:batch-shares-child': 100, 'defense-surfaces-compared': 4000,
                   'class:suppressed-defense': 100, 'snapshots-compared': 10000, 'class:other-attacker-compromised-parent': 200},
         'thorough': {'traversable-answers': 5000000, 'surfaces-compared': 500000, 'incremental-steps-compared': 200000},
     },
